@@ -247,6 +247,14 @@ static void do_pair(const jv *v)
     /* --- RFC 7396 generation (the property covers targets without null members) --- */
     if (!tonull) {
         cJSON *mp, *res;
+        /* on documents as they were built (the RFC 6902 generation above has sorted 'from' and 'to' at every level; a fresh pair has not been touched) */
+        { cJSON *f2 = vb_build(jf), *t2 = vb_build(jt), *m2, *c2, *r2;
+          al_window(0); m2 = cJSONUtils_GenerateMergePatchCaseSensitive(f2, t2);
+          if (!sem_equal(jf, f2) || !sem_equal(jt, t2)) viol("C18", "merge patch generation changed the value of an input document");
+          c2 = vb_build(jf); r2 = m2 ? cJSONUtils_MergePatchCaseSensitive(c2, m2) : c2;
+          if (!r2 || !sem_equal(jt, r2)) { char *s = m2 ? cJSON_PrintUnformatted(m2) : NULL; viol("C18", "applying the merge patch generated from untouched documents (%s) to 'from' does not give 'to'", s ? s : "NULL = no change"); cJSON_free(s); }
+          if (!still_editable(f2, why, sizeof(why)) || !still_editable(t2, why, sizeof(why))) viol("C18 C19", "input document after merge patch generation: %s", why);
+          cJSON_Delete(r2); cJSON_Delete(m2); cJSON_Delete(f2); cJSON_Delete(t2); }
         al_window(0); mp = cJSONUtils_GenerateMergePatchCaseSensitive(from, to);
         if (!sem_equal(jf, from) || !sem_equal(jt, to)) viol("C18", "merge patch generation changed the value of an input document");
         copy = cJSON_Duplicate(from, 1);
@@ -272,6 +280,12 @@ static void do_pair(const jv *v)
     {
         cJSON *mp, *res, *copy2;
         cm_case_begin(); from = vb_build_flagged(jf); to = vb_build_flagged(jt);
+        if (!tonull && (vd_salt() & 2)) {      /* merge patch generation first: on documents no other utility has sorted yet */
+            mp = cJSONUtils_GenerateMergePatchCaseSensitive(from, to);
+            copy2 = cJSON_Duplicate(from, 1); res = mp ? cJSONUtils_MergePatchCaseSensitive(copy2, mp) : copy2;
+            if (!res || !sem_equal(jt, res)) viol("C18", "documents with constant keys / string references (untouched): applying the generated merge patch to 'from' does not give 'to'");
+            cJSON_Delete(res); cJSON_Delete(mp);
+        }
         p = cJSONUtils_GeneratePatchesCaseSensitive(from, to);
         if (!p || (p->child == NULL) != (eq != 0)) viol("C17", "with constant keys / string references in the documents the generated patch is %s although the documents are %s", (p && p->child) ? "not empty" : "empty", eq ? "equal" : "different");
         else { copy2 = cJSON_Duplicate(from, 1); st = cJSONUtils_ApplyPatchesCaseSensitive(copy2, p);
